@@ -193,6 +193,22 @@ func gen(tier string) []proto.Item {
 		s.Then = []proto.Scn{s2, s3}
 		items = append(items, proto.Item{Scn: s, Class: v + "/second-and-third-run"})
 	}
+	// serial engine: an unrelated packet 50 ms into the destination's window shifts the receive polls off the window's
+	// grid, so that one poll straddles the window's end; the destination's answer arrives inside that poll, just after the
+	// window has closed: the engine has been handed it - the list ends there and no further TTL is probed
+	for _, v := range proto.Variants {
+		vi := proto.Info(v)
+		if vi.Parallel {
+			continue
+		}
+		for _, late := range []int{310000, 340000} {
+			s := proto.Scn{Variant: v, First: 1, Last: 5, Dest: 3, IPIDBase: 600, EchoBase: 61, TimeoutMs: 300, DelayMs: 10}
+			s.Hops = map[int]proto.HopSpec{3: {DelayUs: late}}
+			s.Inject = []proto.Inject{{OnTTL: 3, AnswerTTL: 3, Form: vi.TEForm, From: proto.Evil(vi.V6).String(), DelayUs: 50000, Tag: "phase-shift", Rewrite: []simnet.Perturb{{Field: "q.dst", Op: "+1"}}}}
+			items = append(items, proto.Item{Scn: s, Class: fmt.Sprintf("%s/destination-answer-in-the-poll-straddling-its-window/%dms", v, late/1000), Note: map[string]string{"serial_stops_at_once": "1"}})
+		}
+	}
+
 	return items
 }
 
@@ -220,6 +236,22 @@ func check(it *proto.Item, r *proto.Result) []proto.Issue {
 			continue
 		}
 		out = append(out, proto.Emission(sc, r, i)...)
+		if it.Note["serial_stops_at_once"] != "" && i == 0 {
+			// the serial engine is one thread: once it has been handed the destination's answer to the probe it is waiting for,
+			// nothing more goes out
+			seen, cnt := false, 0
+			for _, ev := range r.Net.Order {
+				switch {
+				case !seen && ev.Kind == "read-dest" && ev.Flow == r.Obs[0].SinkID:
+					seen = true
+				case seen && ev.Kind == "tx" && ev.Handle == r.Obs[0].SinkID:
+					cnt++
+				}
+			}
+			if cnt > 0 {
+				out = append(out, proto.Issue{Key: "probe-after-the-destination-answer-was-read", Detail: fmt.Sprintf("%d probes emitted after the serial engine had been handed the destination's answer", cnt)})
+			}
+		}
 	}
 	return out
 }
